@@ -259,6 +259,11 @@ func checkC16(c *Ctx) *report.Result {
 	adopt(r, c.sibling("C26"), map[string]string{"L2": "D-step"}, "a transfer that is not stepped every machine cycle does not take 162 cycles", func(f report.Finding) bool {
 		return strings.Contains(f.Construct, "Mapper") || strings.Contains(f.Construct, "floor")
 	})
+	// a transfer runs only because FF46 was written: the constructed machine starts with none
+	{
+		b, isc := boolConst(c.cellBool(c.W.It.StateOn(c.W.InitHeap), oam, ".dmaRunning"))
+		r.Ob("D-idle", isc && !b, "no transfer is running in the machine gameboy.New returns", "", fmt.Sprintf("running flag after construction: %s (documented: a transfer starts only when FF46 is written)", ai.ValueString(c.cellBool(c.W.It.StateOn(c.W.InitHeap), oam, ".dmaRunning"))))
+	}
 	return r
 }
 
